@@ -458,3 +458,15 @@ def run(ctx):
              "distributions and user attrs unchanged; only the retry bookkeeping keys are written")
     from rules import _retry
     _retry.retry_keeps_queue_entry(ctx, "R04.6")
+    # a queue entry is a snapshot of what was enqueued: the in-memory backend keeps the template trial's own objects
+    # unless it deep-copies them (RDB / journal serialise), so a caller that re-uses its params dict for the next
+    # enqueue_trial would change the values the worker of the earlier entry is handed
+    im = p.func(INMEM + ".create_new_trial")
+    prm = im.params()
+    tvar = prm[2] if len(prm) > 2 else "template_trial"
+    stored = [n for n in own_nodes(im.node) if isinstance(n, ast.Assign) and isinstance(n.value, ast.Call) and n.value.args and norm(n.value.args[0]) == tvar]
+    ok = bool(stored) and all(dotted(n.value.func) in ("copy.deepcopy", "deepcopy") for n in stored)
+    ctx.check(ok, "R04.6", im.short, "queue-entry-is-a-deep-copy",
+              message=f"InMemoryStorage.create_new_trial keeps `{norm(stored[0].value) if stored else tvar}`: the queued trial shares its params / fixed_params / user_attrs "
+                      f"dicts with the caller, so mutating the dict after enqueue_trial (the grid-loop idiom) changes what the worker receives",
+              how="trial = copy.deepcopy(template_trial)")
